@@ -23,9 +23,10 @@
    "everything buffered" and, on ErrNeedMore, peeks for more until the buffer is full; bufio slides unread
    data to the front, so at most the next bsize unread bytes of the stream are ever visible to the head
    parser: w = firstn bsize remaining.  The parse result of a growing prefix of w changes from NeedMore to a
-   decision once and then stays (C09: decided by the head's own bytes; for the bareLF-blank-line finding, by
-   the first CRLFCRLF after the head), so the result of the read loop is the result on w — independent of how
-   the bytes arrive (the harness checks this under three read chunkings).  The body readers consume bytes
+   decision once and then stays (C09: a request head is decided by its own bytes — since f7a0f16 also when
+   its blank line is a bare LF: rejected), so the result of the read loop is the result on w — independent of
+   how the bytes arrive (the harness checks this under three read chunkings).  parseTrailer still searches
+   everything buffered for CRLFCRLF: read_trailer applies it to the window as well.  The body readers consume bytes
    from the stream irrespective of buffering (Model/Body.v convention: the remaining input, then io.EOF).
    The peer always ends the stream with EOF (half-close): no read timeouts.
 
@@ -139,6 +140,7 @@ Definition parse_trailer (src : bytes) : R ptr_res :=
   | IEmpty => Ok (PTOk 2)
   | INeedMore => Ok PTNeedMore
   | IStartSpace => Ok PTErr
+  | IBadBlockEnd => Ok PTErr                    (* unreachable: blockEnd = 0 *)
   | IReady b => trailer_loop (S (length b)) b 0
   end.
 
@@ -234,7 +236,9 @@ Record dispatched := {
 Record response := { rs_status : Z; rs_close : bool }.
 
 Inductive outcome :=
-| OEof           (* the reader reported io.EOF where a request would start (or inside a chunk-size line): silent close *)
+| OEof           (* the reader reported io.EOF where a request would start: silent close (pending responses were flushed) *)
+| OEofBody       (* readHexInt reported a bare io.EOF where a chunk size was expected: silent close; the responses still
+                    sitting in the bufio.Writer (written while more input was buffered) are released unflushed, i.e. lost *)
 | OClosed        (* closed after a handler response carrying Connection: close *)
 | OErr           (* error response written, closed *)
 | OBug           (* a model Panic / OutOfFuel / Go panic: never on a harness case *)
@@ -324,7 +328,7 @@ Fixpoint serve (fuel : nat) (c : fcfg) (rem : bytes) (off : nat) : list dispatch
                       if expect then cons_r {| rs_status := StatusContinue; rs_close := false |} x else x in
                     match read_req_body c hd (skipn n rem) with
                     | RbFail e => pre (err_out e)
-                    | RbEof => pre ([], [], OEof)
+                    | RbEof => pre ([], [], OEofBody)
                     | RbBug => ([], [], OBug)
                     | RbOk body rest =>
                         let len := length rem - length rest in
